@@ -5,7 +5,7 @@
   Objects.  The serializer model (Model/Serializer.lean, as for C15/C17: the code with patches D6–D12), the REGENERATED
   table of the live `*_COMBINATOR` objects and URL names (Gen/PuzzleCombinators.lean), the model of the per-puzzle
   wrappers, of the legacy helper encoders and of the hand-written compass / star battle / aquarium codecs
-  (Model/PuzzleCodecs.lean, with patch D13 for `compass.parse_puzz_link_url`), the problem formats
+  (Model/PuzzleCodecs.lean, with patches D13, D14 for `compass.parse_puzz_link_url`), the problem formats
   (Spec/C16Formats.lean) and the INDEPENDENT pzpr decoders (Spec/Pzpr.lean – the trusted description of the format).
   Text is a list of code points.  `DecimalOk n` = the decimal numeral of `n` has at most 4300 digits (CPython's limit,
   enforced by `int()` in the URL decoder).
@@ -145,10 +145,10 @@ theorem C16_url_roundtrip_heyawake : statement_url_roundtrip_heyawake :=
     obtain ⟨body, h1, h2, h3, h4, _⟩ := Proofs.C16Rooms.roundtrip_heyawake h w hh hw hdh hdw rooms hv clues hl hcl
     exact ⟨body, h1, h2, h3, h4⟩
 
-/-- **compass** (`to_puzz_link_url` / `parse_puzz_link_url`, the REPAIRED parser – patch D13): every board size (non-square
-included), every list of clues inside the board in row-major order on pairwise different cells, numbers `-1` (none) or
-`0..255`: the URL has the puzz.link frame, and parsing it returns `(height, width, clues)`.  (Numbers 256..4095 are
-written as `+xxx`, which the parser cannot read: `Proofs.C16Compass.plus_form_unreadable`.) -/
+/-- **compass** (`to_puzz_link_url` / `parse_puzz_link_url`, the REPAIRED parser – patches D13 (width/height order) and D14
+(the `+xxx` form)): every board size (non-square included), every list of clues inside the board in row-major order on
+pairwise different cells, numbers `-1` (none) or `0..4095` (everything `encode_array` can write): the URL has the
+puzz.link frame, and parsing it returns `(height, width, clues)`. -/
 def statement_url_roundtrip_compass : Prop :=
   ∀ (h w : Nat) (pos : List CompassClue), (∀ c ∈ pos, CompassClueOk h w c) → CompassSorted w pos →
     DecimalOk h → DecimalOk w →
@@ -317,21 +317,33 @@ theorem C16_legacy_agree : statement_legacy_agree :=
      Proofs.C16Legacy.legacy_encode_array_grid_marker m hm empty he rows h w hshape hx none (Or.inl rfl),
    fun h w rooms skip allow hh hw hv => Proofs.C16Bits.legacy_segmentation h w hh hw rooms hv skip allow⟩
 
-/-! ## non-vacuity: concrete URLs (the ones of /repo/tests where there is one) -/
+/-! ## non-vacuity: concrete URLs (the ones of /repo/tests where there is one)
+
+  (The independent decoders of Spec/Pzpr.lean are written for readability, not for evaluation inside the kernel; the
+  examples about them are therefore instances of the theorems above, the texts being computed by the model.) -/
+
+theorem nurikabe_2x3 : IntGrid NurikabeCell 2 3 [[0, 7, -1], [16, 0, 0]] := ⟨rfl, by simp [NurikabeCell]⟩
 
 /-- nurikabe on a NON-SQUARE 2×3 board: width 3 comes first, height 2 second -/
 example : serializeGridPuzzle Gen.nurikabeCodec (intGridVal [[0, 7, -1], [16, 0, 0]])
     = .ok (strOfString "https://puzz.link/p?nurikabe/3/2/g7.-10h") := by rfl
-example : deserializePuzzle Gen.nurikabeCodec (strOfString "https://puzz.link/p?nurikabe/3/2/g7.-10h")
-    = .ok (intGridVal [[0, 7, -1], [16, 0, 0]]) := by rfl
 example : getPuzzleInfo (strOfString "https://puzz.link/p?nurikabe/3/2/g7.-10h") = .ok (strOfString "nurikabe", 2, 3) := by rfl
-example : Pzpr.decodeNumberGrid 2 3 (strOfString "g7.-10h") = some [[-1, 7, -2], [16, -1, -1]] := by rfl
-/-- yajilin with every clue kind, 1×4 -/
+/-- … it decodes back, and the independent decoder reads `0 ↦ no clue (-1)`, `-1 ↦ "?" (-2)` -/
+example : ∃ url, serializeGridPuzzle Gen.nurikabeCodec (intGridVal [[0, 7, -1], [16, 0, 0]]) = .ok url ∧
+    deserializePuzzle Gen.nurikabeCodec url = .ok (intGridVal [[0, 7, -1], [16, 0, 0]]) := by
+  obtain ⟨body, _, h2, h3, _⟩ := C16_url_roundtrip_nurikabe 2 3 _ (by omega) (by unfold DecimalOk; decide) (by unfold DecimalOk; decide) nurikabe_2x3
+  exact ⟨_, h2, h3⟩
+example : Pzpr.decodeNumberGrid 2 3 (strOfString "g7.-10h") = some [[-1, 7, -2], [16, -1, -1]] :=
+  C16_pzpr_grids.1 2 3 [[0, 7, -1], [16, 0, 0]] _ nurikabe_2x3 (by rfl)
+
+theorem yajilin_1x4 : YGrid 1 4 [[.empty, .unknown, .arrow 1 3, .arrow 4 17]] := ⟨rfl, by simp [YCell.Ok]⟩
+
+/-- yajilin with every clue kind, 1×4: `".."`, `"??"`, `"^3"`, `">17"` -/
 example : serializeGridPuzzle Gen.yajilinCodec (yGridVal [[.empty, .unknown, .arrow 1 3, .arrow 4 17]])
     = .ok (strOfString "https://puzz.link/p?yajilin/4/1/a0.13911") := by rfl
-example : Pzpr.decodeYajilin 1 4 (strOfString "a0.13911") = some [[none, some (0, -2), some (1, 3), some (4, 17)]] := by rfl
-/-- the slitherlink URL of tests/test_serializer.py, and pzpr's own spelling of the same board -/
-example : Pzpr.decodeSlither 4 4 (strOfString "dgdh2c71") = Pzpr.decodeSlither 4 4 (strOfString "dgdh2c7b") := by rfl
+example : Pzpr.decodeYajilin 1 4 (strOfString "a0.13911") = some [[none, some (0, -2), some (1, 3), some (4, 17)]] :=
+  C16_pzpr_grids.2.2.2.2.2 1 4 [[.empty, .unknown, .arrow 1 3, .arrow 4 17]] _ yajilin_1x4 (by rfl)
+
 /-- the compass URL of tests/puzzle/test_compass.py (5 rows, 4 columns) and the repaired parser on it -/
 example : compassToPuzzLinkUrl 5 4 [⟨1, 1, 1, 2, -1, 3⟩, ⟨2, 3, -1, 6, -1, -1⟩, ⟨3, 1, 4, -1, -1, 5⟩]
     = .ok (strOfString "https://puzz.link/p?compass/4/5/k1.23k..6.g4..5l") := by rfl
